@@ -190,7 +190,7 @@ class DepthDataNative(Contract):
     has_native = True
     native_shards = 4
     props = ("C18",)
-    bounded_scope = ("sequences of 1-4 add_data calls mixing depth logs and interval logs on one hole (unsorted, repeated, nearly equal depths; identical, nested, overlapping, "
+    bounded_scope = ("sequences of 1-4 add_data calls mixing depth logs (numeric and text) and interval logs on one hole (unsorted, repeated, nearly equal depths; identical, nested, overlapping, "
                      "contiguous and disjoint intervals; logs added together, one by one in one session, or one by one with the file closed and re-opened before each call): after every call each vertex with a depth sits at the reference position of that depth, "
                      "each interval cell joins the positions of its from and to depths, each distinct interval is listed once and every value stays attached to its depth or interval "
                      "(28 fixed sequences, 4 mixing interval and depth logs in one call, 4 with nearly equal depths merged under an explicit collocation distance, + 40 seeded in the quick tier, 600 in the thorough tier)")
@@ -219,6 +219,12 @@ class DepthDataNative(Contract):
             for together in (True, False):
                 yield {"steps": steps, "together": together}
             # the same sequences with the file closed and re-opened between the calls
+            yield {"steps": steps, "together": False, "reopen": True}
+        # text logs (lithology notes at depths) between numeric ones: they follow their depths like any value
+        for steps in ([("depth-text", "t", [30.0, 40.0]), ("depth", "a", [10.0, 35.0])],
+                      [("depth", "a", [20.0, 50.0]), ("depth-text", "t", [60.0, 10.0]), ("depth", "b", [5.0])],
+                      [("depth-text", "t", [30.0]), ("interval", "i", [[10.0, 20.0]]), ("depth", "a", [1.0, 25.0])]):
+            yield {"steps": steps, "together": False}
             yield {"steps": steps, "together": False, "reopen": True}
         # depths / intervals close to, but not equal to, earlier ones, merged under an explicit tolerance:
         # a merged sample keeps the position and the label of the vertex it joins
@@ -293,6 +299,23 @@ class DepthDataNative(Contract):
                         return f"{where}: value {val} added on interval {(a, b)} for '{name}' is not attached to it (values {v.tolist()}) ({case})"
         return None
 
+    @staticmethod
+    def _check_text(dh, written_t, case, where):
+        if not written_t:
+            return None
+        if not dh.get_data("DEPTH"):
+            return f"{where}: text logs were added but the hole has no DEPTH channel ({case})"
+        depth_vals = np.asarray(dh.get_data("DEPTH")[0].values, dtype=float)
+        for name, table in written_t.items():
+            v = dh.get_data(name)[0].values
+            v = [] if v is None else [str(x) for x in np.atleast_1d(v).tolist()]
+            for dep, text in table.items():
+                hit = np.where(np.isclose(depth_vals, dep, atol=1e-3))[0]
+                got = v[hit[0]] if len(hit) == 1 and hit[0] < len(v) else None
+                if got != text:
+                    return f"{where}: the text '{text}' logged at depth {dep} for '{name}' is found as {got!r} (depths {depth_vals.tolist()}, texts {v}) ({case})"
+        return None
+
     def native_check(self, case):
         from geoh5py.objects import Drillhole
         from geoh5py.workspace import Workspace
@@ -311,12 +334,18 @@ class DepthDataNative(Contract):
             dh = Drillhole.create(ws, collar=np.array(collar), surveys=sv)
             uid = dh.uid
             written_d, written_i = {}, {}
+            written_t = {}
             specs = []
             flat = []
             for kind, name, arg in steps:
                 flat.extend([(k2, n2, a2, name) for k2, n2, a2 in arg] if kind == "mixed" else [(kind, name, arg, None)])
             for k, (kind, name, arg, call) in enumerate(flat):
-                if kind == "depth":
+                if kind == "depth-text":
+                    uniq = list(dict.fromkeys(arg))
+                    vals = np.array([f"note at {d:g}" for d in uniq])
+                    written_t[name] = dict(zip(uniq, vals.tolist()))
+                    specs.append(("depth", {name: {"depth": np.array(uniq), "values": vals, "type": "text"}}, call))
+                elif kind == "depth":
                     uniq = list(dict.fromkeys(arg))
                     vals = np.array([1000.0 * (k + 1) + d for d in uniq])
                     written_d[name] = dict(zip(uniq, vals))
@@ -334,6 +363,7 @@ class DepthDataNative(Contract):
                 dh.add_data(merged)
                 return self._check(dh, collar, sv, written_d, written_i, case, "after one add_data call")
             done_d, done_i = {}, {}
+            done_t = {}
             ckw = {"collocation_distance": case["collocation_distance"]} if case.get("collocation_distance") else {}
             # consecutive specs that belong to one "mixed" step go into a single add_data call, in their order
             calls = []
@@ -347,6 +377,9 @@ class DepthDataNative(Contract):
                 for kind, sp in group:
                     payload.update(sp)
                     name = next(iter(sp))
+                    if name in written_t:
+                        done_t[name] = written_t[name]
+                        continue
                     (done_d if kind == "depth" else done_i)[name] = (written_d if kind == "depth" else written_i)[name]
                 if tmp and n_ > 0:
                     # a later session: the hole is read back from the file (nothing cached) before more data are added
@@ -355,14 +388,15 @@ class DepthDataNative(Contract):
                     box[0] = Workspace(os.path.join(tmp, "dh.geoh5"), mode="r+")
                     dh = box[0].get_entity(uid)[0]
                 dh.add_data(payload, **ckw)
-                bad = self._check(dh, collar, sv, done_d, done_i, case, f"after call {n_ + 1}")
+                bad = self._check(dh, collar, sv, done_d, done_i, case, f"after call {n_ + 1}") or self._check_text(dh, done_t, case, f"after call {n_ + 1}")
                 if bad:
                     return bad
             if tmp:
                 del dh
                 box[0].close()
                 box[0] = Workspace(os.path.join(tmp, "dh.geoh5"), mode="r")
-                return self._check(box[0].get_entity(uid)[0], collar, sv, done_d, done_i, case, "after re-opening the file")
+                back = box[0].get_entity(uid)[0]
+                return self._check(back, collar, sv, done_d, done_i, case, "after re-opening the file") or self._check_text(back, done_t, case, "after re-opening the file")
             return None
         finally:
             try:
@@ -412,7 +446,7 @@ class SortDepths(Contract):
     """Drillhole.sort_depths: when the depths are out of order, ONE permutation pi (depths[pi] sorted)
     is applied to the depths, to every vertex data set and to the vertices, and every interval cell
     is re-indexed with the inverse permutation, so it still joins the same two vertices; cell data
-    and non-numeric data are untouched.  Sorted depths change nothing."""
+    are untouched; text logs (one text per vertex) follow the same permutation.  Sorted depths change nothing."""
     target = "geoh5py/objects/drillhole.py::Drillhole.sort_depths"
     props = ("C18", "C07")
     attr_overrides = {"children": lambda I, obj: obj.fields["_children"], "vertices": lambda I, obj: obj.fields["_vertices"], "cells": lambda I, obj: obj.fields["_cells"]}
@@ -445,9 +479,10 @@ class SortDepths(Contract):
         depth = data("DEPTH", FloatData, "VERTEX", D)
         vdat = data("vertex-data", FloatData, "VERTEX", X)
         cdat = data("cell-data", FloatData, "CELL", Y)
-        tdat = data("text-data", TextData, "VERTEX", Opaque("text-values"))
+        T = sym_arr("text_codes", (n.e,), "int")  # one text per vertex (texts are carried as opaque codes)
+        tdat = data("text-data", TextData, "VERTEX", T)
         me = Obj(Drillhole, {"_children": PList([depth, vdat, cdat, tdat]), "_vertices": V, "_cells": C})
-        ctx.env.update(depth_data=depth, me=me, V=V, D=D, X=X, Y=Y, C=C, n=n, nc=nc, kids={"depth": depth, "v": vdat, "c": cdat, "t": tdat})
+        ctx.env.update(depth_data=depth, me=me, V=V, D=D, X=X, Y=Y, C=C, T=T, n=n, nc=nc, kids={"depth": depth, "v": vdat, "c": cdat, "t": tdat})
         return [me], {}
 
     def post(self, ctx, result):
@@ -458,11 +493,11 @@ class SortDepths(Contract):
         newD, newX = e["kids"]["depth"].attrs["values"], e["kids"]["v"].attrs["values"]
         newV, newC = me.fields["_vertices"], me.fields["_cells"]
         ctx.oblige("cell-data-untouched", e["kids"]["c"].attrs["values"] is e["Y"])
-        ctx.oblige("text-data-untouched", not isinstance(e["kids"]["t"].attrs["values"], Arr))
+        newT = e["kids"]["t"].attrs["values"]
         i, c, j = z3.Ints(f"{fresh_name('i')} {fresh_name('c')} {fresh_name('j')}")
         rng = z3.And(i >= 0, i < n)
         if not sorts:
-            ctx.oblige("sorted-depths-change-nothing", newD is e["D"] and newX is e["X"] and newV is e["V"] and newC is e["C"])
+            ctx.oblige("sorted-depths-change-nothing", newD is e["D"] and newX is e["X"] and newV is e["V"] and newC is e["C"] and newT is e["T"])
             a, b = z3.Ints(f"{fresh_name('a')} {fresh_name('b')}")
             ctx.oblige("nothing-is-done-only-when-the-depths-are-in-order", z3.Implies(z3.And(a >= 0, a + 1 < n), e["D"].elem(a) <= e["D"].elem(a + 1)))
             return
@@ -474,6 +509,10 @@ class SortDepths(Contract):
         ctx.oblige("the-new-depths-are-in-order", z3.Implies(z3.And(i >= 0, i + 1 < n), newD.elem(i) <= newD.elem(i + 1)))
         ctx.oblige("depths-follow-the-sorting-permutation", z3.Implies(rng, newD.elem(i) == e["D"].elem(pi(i))))
         ctx.oblige("vertex-data-follow-the-same-permutation", z3.Implies(rng, newX.elem(i) == e["X"].elem(pi(i))))
+        okt = isinstance(newT, Arr) and newT is not e["T"]
+        ctx.oblige("text-logs-are-reordered-too", okt, note="a text log keeps its old order while its depths are re-sorted: each text is then attached to another depth")
+        if okt:
+            ctx.oblige("text-logs-follow-the-same-permutation", z3.Implies(rng, newT.elem(i) == e["T"].elem(pi(i))))
         ctx.oblige("vertices-follow-the-same-permutation", z3.Implies(rng, z3.And(*[newV.elem(i, k) == e["V"].elem(pi(i), k) for k in range(3)])))
         if e["C"] is not None:
             okc = isinstance(newC, Arr) and newC.ndim == 2
